@@ -176,14 +176,31 @@ Fixpoint chunk_loop (fuel : nat) (c : caps) (rh : rheader) (k pr : Z) (s : strea
 
 Definition is_none {A} (o : option A) : bool := match o with None => true | Some _ => false end.
 
+(* `while gap > 0: skipped = source.read(gap); if not skipped: break; gap -= len(skipped)`: the bytes between the last
+   point and the first EVLR are read and dropped. *)
+Fixpoint skip_gap (fuel : nat) (gap : Z) (s : stream) : stream :=
+  match fuel with
+  | O => s
+  | S fu =>
+      if gap >? 0 then
+        let '(d, s1) := s_read gap s in
+        if len d =? 0 then s1 else skip_gap fu (gap - len d) s1
+      else s
+  end.
+(* the sources of this model give the bytes that are asked when they are there: the first read gives the whole gap, or
+   what is left of the data and then the second one nothing; a third turn is never taken (skip_gap_fuel) *)
+Definition skip_fuel : nat := 3.
+(* the gap as the source computes it (Gen/GenAccess.v): start_of_first_evlr - (offset_to_point_data + point_count * point size) *)
+Definition evlr_gap (rh : rheader) : Z := gen_evlr_gap (h_evstart rh) (rh_offset rh) (h_count rh) (rh_psize rh).
+
 (* the EVLR part of LasReader.read(): load what was not loaded at opening *)
 Definition finish_evlrs (c : caps) (rh : rheader) (s : stream) : result rheader * stream :=
   if (h_minor rh >=? 4) && (h_nev rh >? 0) && is_none (rh_evlrs rh) then
     let '(sk, s1) := s_can_seek c s in          (* getattr(self.point_source.source, "seekable", lambda: False)() *)
     if sk then hdr_read_evlrs c rh s1             (* self.read_evlrs() *)
     else
-      (* "we assume that the first evlr start just after the last point" *)
-      let '(r, s2) := sread_vlrs (Z.to_nat (h_nev rh)) s1 in
+      (* "We are just after the last point: the first evlr generally starts here, bytes that lie before it are skipped" *)
+      let '(r, s2) := sread_vlrs (Z.to_nat (h_nev rh)) (skip_gap skip_fuel (evlr_gap rh) s1) in
       (match r with Ok l => Ok (with_evlrs rh (Some l)) | Err e => Err e end, s2)
   else if (h_minor rh >=? 4) && is_none (rh_evlrs rh) then (Ok (with_evlrs rh (Some [])), s)
   else (Ok rh, s).
@@ -316,11 +333,50 @@ Definition laid_out (f : list Z) (rh : rheader) : Prop :=
 Definition needs_evlrs (rh : rheader) : bool := (h_minor rh >=? 4) && (h_nev rh >? 0).
 (* EVLRs are loaded when the file is opened iff that was asked for and the source can seek (or there is nothing to load) *)
 Definition loads_at_open (c : caps) (e : bool) (rh : rheader) : bool := e && (can_seek c || negb (needs_evlrs rh)).
-(* the first EVLR starts right after the last point: what a source that cannot seek has to assume *)
+(* the first EVLR starts right after the last point: what every file written by laspy satisfies *)
 Definition evlrs_adjacent (rh : rheader) : Prop :=
   h_minor rh >= 4 -> h_nev rh > 0 -> h_evstart rh = rh_offset rh + Z.max 0 (h_count rh) * rh_psize rh.
+(* the first EVLR starts at or after the end of the points: bytes may lie between them (waveform packets, padding). A source
+   that cannot seek reads and drops them; one that can seeks over them *)
+Definition evlrs_after_points (rh : rheader) : Prop :=
+  h_minor rh >= 4 -> h_nev rh > 0 -> rh_offset rh + Z.max 0 (h_count rh) * rh_psize rh <= h_evstart rh.
 (* the file was cut inside its point block after a whole number of records (an interrupted copy): `stored` records, fewer
    than the header announces, and nothing after them *)
 Definition truncated (f : list Z) (rh : rheader) (stored : Z) : Prop :=
   dec_header f false = Ok rh /\ bytes_ok f = true /\ rh_compressed rh = false /\ 0 < rh_psize rh
   /\ 0 <= stored < h_count rh /\ len f = rh_offset rh + stored * rh_psize rh.
+
+(* ------------------------------------------------------------------------------------ *)
+(* sources that return short counts                                                      *)
+(* ------------------------------------------------------------------------------------ *)
+(* ONE call of read(n) / readinto(buffer of n bytes) on a raw stream, a socket, an unbuffered pipe may give FEWER bytes
+   than asked although more are left — but at least one when one is left. `cap` is what this call is able to give (a cap
+   below 1 counts as 1); read(n < 0) gives everything (RawIOBase.readall). With n <= cap the call is s_read / s_readinto:
+   the sources of the model above are those whose calls are never capped. *)
+Definition short_take (cap n : Z) (s : stream) : list Z :=
+  if n <? 0 then avail s else firstn (Z.to_nat (Z.min n (Z.max 1 cap))) (avail s).
+Definition s_read_short (cap n : Z) (s : stream) : list Z * stream :=
+  let data := short_take cap n s in
+  (data, mkSt (st_bytes s) (st_pos s + len data) (st_log s ++ [ORead n])).
+Definition s_readinto_short (cap n : Z) (s : stream) : list Z * stream :=
+  let data := short_take cap (Z.max 0 n) s in
+  (data, mkSt (st_bytes s) (st_pos s + len data) (st_log s ++ [OReadInto n])).
+
+(* what a reader has to do to get n bytes from such a source: ask again for what is still missing, until the n bytes are
+   there or a call gives nothing (the end of the data). `caps`: what the successive calls are able to give (once the list
+   is used up the calls are complete). `into`: through readinto (slices of one buffer) instead of read. *)
+Fixpoint s_read_exact (fuel : nat) (into : bool) (caps : list Z) (n : Z) (s : stream) : list Z * stream :=
+  match fuel with
+  | O => ([], s)
+  | S fu =>
+      if n <=? 0 then ([], s) else
+      let cap := match caps with [] => n | c :: _ => c end in
+      let '(d, s1) := if into then s_readinto_short cap n s else s_read_short cap n s in
+      if len d =? 0 then ([], s1) else
+      let '(d2, s2) := s_read_exact fu into (tl caps) (n - len d) s1 in
+      (d ++ d2, s2)
+  end.
+(* each call that is made gives at least one byte, or is the last: n + 1 calls are always enough *)
+Definition read_exact (into : bool) (caps : list Z) (n : Z) (s : stream) : list Z * stream :=
+  s_read_exact (S (Z.to_nat n)) into caps n s.
+Definition is_read_call (o : sop) : bool := match o with ORead _ | OReadInto _ => true | _ => false end.
